@@ -16,6 +16,7 @@ import EdzedProofs.InitClosure
 import EdzedProofs.InitTie
 import EdzedProofs.InitSbTie
 import EdzedProofs.InitSbEarly
+import EdzedProofs.AsyncInitTie
 
 namespace Edzed.Init
 
@@ -348,6 +349,156 @@ theorem translated_event_early_init_site_is_reference {σ ε τ δ ν η ρ γ :
   | (funext P fuel etype data
      unfold Edzed.Gen.TrD.event Edzed.TrTie.eventRef Edzed.TrTie.checkPart
      cases P.isStr etype <;> cases P.etypeTruthy etype <;> cases P.isEventType etype <;> rfl)
+
+/-! #### the init waiter (`AddonAsyncInit`), `InitAsync`, `ValuePoll`, constant `init_regular`s, `get_state`,
+     `_enable_event` (tools/py2lean_asyncinit.py → Gen/TranslatedAsyncInit.lean, model EdzedModel/AsyncInit.lean) -/
+
+section asyncinit
+open Edzed.AsyncInit Edzed.Gen.TrAI
+
+/-- `AddonAsyncInit.__init__ / start / set_output / init_async` translated ARE the model's waiter operations -/
+theorem translated_asyncinit_addon_is_model (env : Env) (o : Obj) (v : Val) :
+    interp env 8 asyncInit_init o v = .done (aiInit o) Option.none ∧
+    interp env 8 asyncInit_start o v = .done (aiStart o) Option.none ∧
+    interp env 8 asyncInit_set_output o v = aiSetOutput o v ∧
+    interp env 8 asyncInit_init_async o v = aiInitAsync o :=
+  ⟨addon_init_model env o v, addon_start_model env o v, addon_set_output_model env o v,
+   addon_init_async_model env o v⟩
+
+/-- `InitAsync.__init__ / init_async / init_from_value` translated ARE the model's -/
+theorem translated_asyncinit_initasync_is_model (env : Env) (o : Obj) (v : Val) (hc : env.asyncInitClass = false) :
+    interp env 8 initAsync_init o v = iaInit env o ∧
+    interp env 8 initAsync_init_async o v = iaInitAsync env o ∧
+    interp env 8 initAsync_init_from_value o v = plainSetOutput o v :=
+  ⟨initasync_init_model env o v, initasync_init_async_model env o v hc, initasync_init_from_value_model env o v hc⟩
+
+/-- `ValuePoll.__init__ / _maintask (one pass of its loop) / init_from_value` translated ARE the model's -/
+theorem translated_asyncinit_valuepoll_is_model (env : Env) (o : Obj) (v : Val) (hc : env.asyncInitClass = true) :
+    interp env 8 valuePoll_init o v = vpInit env o ∧
+    interp env 12 valuePoll_maintask o v = vpPass env o ∧
+    interp env 8 valuePoll_init_from_value o v = aiSetOutput o v :=
+  ⟨valuepoll_init_model env o v, valuepoll_maintask_model env o v hc, valuepoll_init_from_value_model env o v hc⟩
+
+/-- the one-line `init_regular` of ControlBlock / Repeat / OutputAsync / OutputFunc: `set_output` of the constant
+    None / 0 / 0 / False (a `Regular.sets` script of the start-up model) -/
+theorem translated_asyncinit_const_init_regular_is_model (env : Env) (o : Obj) (v : Val)
+    (hc : env.asyncInitClass = false) :
+    interp env 8 controlBlock_init_regular o v = plainSetOutput o Val.none ∧
+    interp env 8 repeat_init_regular o v = plainSetOutput o (Val.int 0) ∧
+    interp env 8 outputAsync_init_regular o v = plainSetOutput o (Val.int 0) ∧
+    interp env 8 outputFunc_init_regular o v = plainSetOutput o (Val.bool false) :=
+  const_init_regular_model env o v hc
+
+/-- the default `SBlock.get_state` and the `_enable_event` context manager -/
+theorem translated_asyncinit_get_state_enable_event_is_model (env : Env) (o : Obj) (v : Val) :
+    interp env 8 sblock_get_state o v = getState o ∧
+    interp env 8 enableEvent_init o v = .done { o with blockStored := true } Option.none ∧
+    interp env 8 enableEvent_enter o v = .done (eeEnter o) Option.none ∧
+    interp env 8 enableEvent_exit o v = eeExit o :=
+  ⟨get_state_model env o v, (enable_event_model env o v).1, (enable_event_model env o v).2.1,
+   (enable_event_model env o v).2.2⟩
+
+/-! property-level consequences -/
+
+/-- the waiter of a started block is released by the first `set_output` of a value other than UNDEF -- and only
+    by that: UNDEF is refused and leaves the waiter (and everything else) alone -/
+theorem asyncinit_waiter_released_exactly_on_first_output (o : Obj) (v : Val) (hs : o.ev = some false) :
+    (v.isUndef = false →
+      (aiSetOutput o v).isDone = true ∧ (aiSetOutput o v).obj.ev = some true ∧
+      (aiSetOutput o v).obj.out.pyEq v = true) ∧
+    (v.isUndef = true → aiSetOutput o v = .raised "ValueError" o) := by
+  constructor
+  · intro hv
+    cases hq : o.out.pyEq v <;>
+      simp [aiSetOutput, sblockSetOutput, hv, hs, hq, Outcome.isDone, Outcome.obj, pyEq_self_of_not_undef v hv]
+  · intro hv; simp [aiSetOutput, sblockSetOutput, hv]
+
+/-- later outputs leave the released waiter as it is (it is never re-armed) -/
+theorem asyncinit_waiter_stays_released (o : Obj) (v : Val) (hs : o.ev = some true) (hv : v.isUndef = false) :
+    (aiSetOutput o v).isDone = true ∧ (aiSetOutput o v).obj.ev = some true := by
+  cases hq : o.out.pyEq v <;> simp [aiSetOutput, sblockSetOutput, hv, hs, hq, Outcome.isDone, Outcome.obj]
+
+/-- `init_async` of the add-on returns iff the waiter has been released; before that it stays suspended -/
+theorem asyncinit_init_async_returns_iff_released (o : Obj) :
+    ((aiInitAsync o).isDone = true ↔ o.ev = some true) ∧ (o.ev = some false → aiInitAsync o = .blocked o) := by
+  constructor
+  · cases he : o.ev with
+    | none => simp [aiInitAsync, he, Outcome.isDone]
+    | some b => cases b <;> simp [aiInitAsync, he, Outcome.isDone]
+  · intro h; simp [aiInitAsync, h]
+
+/-- ValuePoll: a poll result UNDEF is skipped (output and waiter untouched); any other result of a started,
+    still waiting block becomes its output and releases the waiter, so that `init_async` returns -/
+theorem valuepoll_poll_initialises_undef_skipped (env : Env) (o : Obj) (hs : o.ev = some false) :
+    (env.polled.isUndef = true →
+      (vpPass env o).isAgain = true ∧ (vpPass env o).obj.out = o.out ∧ (vpPass env o).obj.ev = o.ev) ∧
+    (env.polled.isUndef = false →
+      (vpPass env o).isAgain = true ∧ (vpPass env o).obj.out.pyEq env.polled = true ∧
+      (vpPass env o).obj.ev = some true ∧ (aiInitAsync (vpPass env o).obj).isDone = true) := by
+  constructor
+  · intro hv; simp [vpPass, hv, Outcome.isAgain, Outcome.obj]
+  · intro hv
+    cases hq : o.out.pyEq env.polled <;>
+      simp [vpPass, hv, hq, aiSetOutput, sblockSetOutput, hs, Outcome.isAgain, Outcome.obj, aiInitAsync,
+        Outcome.isDone, pyEq_self_of_not_undef env.polled hv]
+
+/-- ValuePoll's interval must be a positive period, InitAsync's `init_coro` a non-empty sequence -/
+theorem valuepoll_interval_must_be_positive (env : Env) (o : Obj) :
+    (vpInit env o).isDone = true ↔ ∃ p, env.periodOfInterval = some p ∧ ¬ p ≤ 0 := by
+  unfold vpInit
+  cases hp : env.periodOfInterval with
+  | none => simp [Outcome.isDone]
+  | some p => by_cases hle : p ≤ 0 <;> simp [hle, Outcome.isDone]
+
+theorem initasync_init_coro_must_be_nonempty_sequence (env : Env) (o : Obj) :
+    (iaInit env o).isDone = true ↔ (env.coroIsSequence = true ∧ env.coroNonEmpty = true) := by
+  unfold iaInit
+  cases env.coroIsSequence <;> cases env.coroNonEmpty <;> simp [Outcome.isDone]
+
+/-- the source order of an InitAsync block over the TRANSLATED programs: when `init_async` has delivered a value
+    its `init_regular` (Gen/TranslatedInit.lean) does nothing, so `init_sblock` leaves the delivered value alone
+    (`translated_init_sblock_is_model`: initdef only if still uninitialised); when it has not, `init_regular` sets
+    None only if there is no initdef -/
+theorem initasync_delivered_value_survives_init_regular (env : Env) (o o' : Obj) (initdef : Val)
+    (h : iaInitAsync env o = .done o' Option.none) :
+    Edzed.Gen.TrInit.initAsyncRegular o'.out initdef = [] := by
+  have hv : env.coroResult.isUndef = false := by
+    cases hu : env.coroResult.isUndef with
+    | false => rfl
+    | true => simp [iaInitAsync, plainSetOutput, sblockSetOutput, hu] at h
+  have ho : o'.out.isUndef = false := by
+    cases hq : o.out.pyEq env.coroResult with
+    | true =>
+      simp [iaInitAsync, plainSetOutput, sblockSetOutput, hv, hq] at h
+      rw [← h]; exact pyEq_not_undef _ _ hq hv
+    | false =>
+      simp [iaInitAsync, plainSetOutput, sblockSetOutput, hv, hq] at h
+      rw [← h]; exact hv
+  simp [Edzed.Gen.TrInit.initAsyncRegular, Edzed.Gen.TrInit.isInitialized, ho]
+
+/-- `get_state` of an initialised block is its output; an uninitialised block has no state -/
+theorem get_state_default (o : Obj) :
+    (o.out.isUndef = false → getState o = .done o (some o.out)) ∧
+    (o.out.isUndef = true → getState o = .raised "EdzedInvalidState" o) := by
+  constructor <;> intro h <;> simp [getState, h]
+
+/-- `with self._enable_event:` clears the recursion guard and puts back what it found -/
+theorem enable_event_restores_flag (o : Obj) :
+    (eeEnter o).active = false ∧ eeExit (eeEnter o) = .done { eeEnter o with active := o.active } Option.none := by
+  simp [eeEnter, eeExit]
+
+/-- ... which is what the early-initialisation site of the start-up model assumes (`earlyPrims`) -/
+theorem enable_event_matches_early_init_site (rec : Call → St → St) (d : Nat) (s : St) (o : Obj)
+    (ha : o.active = s.active d) :
+    ((earlyPrims rec d).enableEnter s).1.active d = (eeEnter o).active ∧
+    (eeEnter o).saved = some (s.active d) := by
+  simp [earlyPrims, eeEnter, St.setActive, upd, ha]
+
+example : ∃ o v, o.ev = some false ∧ v.isUndef = false ∧
+    aiSetOutput o v = .done { o with ev := some true, out := v, trace := [.output v true] } Option.none :=
+  ⟨{ ev := some false }, Val.int 5, rfl, rfl, by decide⟩
+
+end asyncinit
 
 /-- the states of the hypotheses exist: a block with all three synchronous sources, initialised early -/
 example : ∃ c s, s.ok = true ∧ (initBody c (exec c 8) 0 true s).aborted = false ∧
